@@ -5,6 +5,8 @@ FV.Model.PubSub (`step`: publish / work / unsubscribe / abandon) with the real m
 
   ps  <tr> <w> <delayUs> <ops>              runtime suite, quiescent scenarios: prints
                                             unsub=<none|ok> delivered=<tags> cb=<n> err=<n>
+  pm  <tr> <w> <delayUs> <subs> <ops>       runtime suite, several subscriptions (topic index each) from ONE provider:
+                                            the product of independent instances; prints k=<n> <sub 0> / <sub 1> / …
   psr <tr> <w> <delayUs> <observed> <ops>   runtime suite, Unsubscribe racing messages in flight: `ok` iff the
                                             observed delivery list is admissible (everything delivered before the
                                             Unsubscribe, then a sub-list of what was queued; as sets for w > 1)
@@ -25,7 +27,8 @@ def strBytes (s : String) : Bytes := s.toUTF8.toList
 
 def rtDefs : Defs := ⟨[], [], [⟨.struct, "rt/Payload", "Payload", [⟨1, .default, "tag", .i64, none⟩, ⟨2, .default, "blob", .binary, none⟩]⟩]⟩
 def rtCfg : SubCfg := ⟨rtDefs, 8, "Evt", .struct "rt/Payload"⟩
-def rtTopic : Topic := strBytes "t"
+def rtTopicOf (i : Nat) : Topic := strBytes s!"t{i}"
+def rtTopic : Topic := rtTopicOf 0
 
 /-- `c07Blob` of harness/rt/pubsub.go. -/
 def rtBlob (tag : Nat) : Bytes :=
@@ -39,7 +42,7 @@ def rtVal (tag : Nat) : Val := .struct [(1, .int tag), (2, .bytes (rtBlob tag))]
 
 inductive RtOp where
   | pub (m : Published)
-  | barrier | wait | unsub
+  | barrier | wait | unsub (k : Nat)
 
 def rtPacket (opName : String) (tag : Nat) (truncate : Bool) : Packet :=
   let es : List Event := if truncate then [.sb "Payload", .fb "tag" 10 1] else
@@ -48,16 +51,36 @@ def rtPacket (opName : String) (tag : Nat) (truncate : Bool) : Packet :=
     | _ => []
   ⟨be32 0 ++ marshal (rtHdrs tag), .msg opName es⟩
 
+/-- `<body>[.<topic>]` -/
+def splitTopic (r : List Char) : Option (String × Nat) :=
+  match (String.ofList r).splitOn "." with
+  | [b] => some (b, 0)
+  | [b, t] => t.toNat?.map fun n => (b, n)
+  | _ => none
+
 def parseRtOp (s : String) : Option RtOp :=
   match s.toList with
   | ['B'] => some .barrier
   | ['W'] => some .wait
-  | ['U'] => some .unsub
-  | 'V' :: r => (String.ofList r).toNat?.map fun t => .pub ⟨rtTopic, rtPacket "Evt" t false⟩
-  | 'O' :: r => (String.ofList r).toNat?.map fun t => .pub ⟨rtTopic, rtPacket "Other" t false⟩
-  | 'G' :: r => (String.ofList r).toNat?.map fun t => .pub ⟨rtTopic, rtPacket "Evt" t true⟩
-  | 'F' :: r => (String.ofList r).toNat?.map fun t => .pub ⟨strBytes "t.x", rtPacket "Evt" t false⟩
-  | 'R' :: r => (unhex (String.ofList r)).map fun b => .pub ⟨rtTopic, ⟨b, .garbage⟩⟩
+  | ['U'] => some (.unsub 0)
+  | 'U' :: r => (String.ofList r).toNat?.map .unsub
+  | 'V' :: r => do
+    let (b, t) ← splitTopic r
+    let n ← b.toNat?
+    pure (.pub ⟨rtTopicOf t, rtPacket "Evt" n false⟩)
+  | 'O' :: r => do
+    let (b, t) ← splitTopic r
+    let n ← b.toNat?
+    pure (.pub ⟨rtTopicOf t, rtPacket "Other" n false⟩)
+  | 'G' :: r => do
+    let (b, t) ← splitTopic r
+    let n ← b.toNat?
+    pure (.pub ⟨rtTopicOf t, rtPacket "Evt" n true⟩)
+  | 'F' :: r => (String.ofList r).toNat?.map fun t => .pub ⟨strBytes "t0.x", rtPacket "Evt" t false⟩
+  | 'R' :: r => do
+    let (b, t) ← splitTopic r
+    let bytes ← unhex b
+    pure (.pub ⟨rtTopicOf t, ⟨bytes, .garbage⟩⟩)
   | _ => none
 
 def parseRtOps (s : String) : Option (List RtOp) :=
@@ -93,9 +116,30 @@ def rtRun (ops : List RtOp) : St × Bool :=
     | .pub m => ((step rtCfg rtTopic s (.publish m)).getD s, u)
     | .barrier => (drain rtCfg rtTopic (s.queue.length + 1) s, u)
     | .wait => (s, u)
-    | .unsub =>
+    | .unsub k =>
+      if k ≠ 0 then (s, u) else
       let s1 := (step rtCfg rtTopic s .unsubscribe).getD s
       ((step rtCfg rtTopic s1 .abandon).getD s1, true)) (St.init, false)
+
+/-- Several subscriptions made from one provider: a PRODUCT of independent instances of the
+subscription model, instance `k` on topic `topics[k]` (`c07_subscribers_independent`); every publish is
+offered to every instance, the broker model of each keeps what is on its own topic. -/
+def rtRunMulti (topics : List Nat) (ops : List RtOp) : List (St × Bool) :=
+  let stepAll (f : Nat → Topic → St × Bool → St × Bool) (l : List (St × Bool)) : List (St × Bool) :=
+    (l.zip (List.range l.length)).map fun (x, k) => f k (rtTopicOf (topics.getD k 0)) x
+  ops.foldl (fun acc o =>
+    match o with
+    | .pub m => stepAll (fun _ t (s, u) => ((step rtCfg t s (.publish m)).getD s, u)) acc
+    | .barrier => stepAll (fun _ t (s, u) => (drain rtCfg t (s.queue.length + 1) s, u)) acc
+    | .wait => acc
+    | .unsub k => stepAll (fun i t (s, u) =>
+        if i ≠ k then (s, u) else
+        let s1 := (step rtCfg t s .unsubscribe).getD s
+        ((step rtCfg t s1 .abandon).getD s1, true)) acc) (topics.map fun _ => (St.init, false))
+
+def subLineStr (wn : Nat) (s : St) (u : Bool) : String :=
+  let tags := if wn ≤ 1 then s.w.log.map tagOf else sortNats (s.w.log.map tagOf)
+  s!"unsub={if u then "ok" else "none"} delivered={tagsStr tags} cb={s.w.cbs} err={s.w.errs}"
 
 /-- Racing execution up to the first Unsubscribe: (delivered for sure, deliveries owed for what is in flight). -/
 def rtRace : List RtOp → St → (List Nat × List Nat)
@@ -105,7 +149,7 @@ def rtRace : List RtOp → St → (List Nat × List Nat)
   | .pub m :: r, s => rtRace r ((step rtCfg rtTopic s (.publish m)).getD s)
   | .barrier :: r, s => rtRace r (drain rtCfg rtTopic (s.queue.length + 1) s)
   | .wait :: r, s => rtRace r s
-  | .unsub :: _, s => (s.w.log.map tagOf, (s.queue.filterMap (deliver rtCfg)).map tagOf)
+  | .unsub _ :: _, s => (s.w.log.map tagOf, (s.queue.filterMap (deliver rtCfg)).map tagOf)
 
 def isSublist : List Nat → List Nat → Bool
   | [], _ => true
@@ -159,10 +203,16 @@ structure G7 where
   toks : List PTok
   scope : Bytes
 
-structure G7State where
+/-- One subscription made from the provider: its topic, what it decodes, its model instance. -/
+structure G7Sub where
   topic : Topic
+  cfg : SubCfg
   st : St
+
+structure G7State where
+  subs : List G7Sub
   acts : List String
+  calls : List String
 
 def g7Classify (before after : St) (enqueued : Bool) : String :=
   if !enqueued then "nosub"
@@ -170,19 +220,57 @@ def g7Classify (before after : St) (enqueued : Bool) : String :=
   else if after.w.errs > before.w.errs then "cb:err"
   else "nocb"
 
+def g7Call (d : Defs) (k : Nat) (cfg : SubCfg) (dl : Delivery) : String :=
+  s!"{k}:" ++ dumpV d 64 cfg.ty dl.payload ++ "@" ++ pairsOf (dl.hdrs.filter fun kv => kv.1 ≠ opIdHeader)
+
+/-- A publish is offered to every instance (product of independent instances); the in-memory broker
+calls the subscriptions on the topic one after the other, in subscription order. -/
 def g7Publish (g : G7) (s : G7State) (m : Published) : G7State :=
-  let s1 := (step g.cfg s.topic s.st (.publish m)).getD s.st
-  let enq := s1.queue.length > s.st.queue.length
-  let s2 := drain g.cfg s.topic (s1.queue.length + 1) s1
-  { s with st := s2, acts := s.acts ++ [g7Classify s.st s2 enq] }
+  let rec go (k : Nat) (subs : List G7Sub) (accS : List G7Sub) (res : List String) (calls : List String) :
+      List G7Sub × List String × List String :=
+    match subs with
+    | [] => (accS.reverse, res, calls)
+    | sb :: rest =>
+      let s1 := (step sb.cfg sb.topic sb.st (.publish m)).getD sb.st
+      let enq := s1.queue.length > sb.st.queue.length
+      let s2 := drain sb.cfg sb.topic (s1.queue.length + 1) s1
+      let newCalls := (s2.w.log.drop sb.st.w.log.length).map (g7Call g.cfg.d k sb.cfg)
+      go (k + 1) rest ({ sb with st := s2 } :: accS)
+        (if enq then res ++ [g7Classify sb.st s2 true] else res) (calls ++ newCalls)
+  let (subs', res, calls') := go 0 s.subs [] [] s.calls
+  { s with subs := subs', calls := calls', acts := s.acts ++ [if res.isEmpty then "nosub" else "+".intercalate res] }
+
+def g7TopicOf (s : G7State) (k : Nat) : Option Topic := (s.subs[k]?).map (·.topic)
+
+def g7Unsub (s : G7State) (i : Nat) : Option G7State := do
+  let sb ← s.subs[i]?
+  let s1 := (step sb.cfg sb.topic sb.st .unsubscribe).getD sb.st
+  let s2 := (step sb.cfg sb.topic s1 .abandon).getD s1
+  pure { s with subs := s.subs.set i { sb with st := s2 }, acts := s.acts ++ ["unsub"] }
 
 def g7Act (g : G7) (s : G7State) (a : String) : Option G7State :=
   match a.splitOn "!" with
-  | ["S", vs] => do
-    let vals ← parseVarVals vs
-    let t := renderTopic g.toks vals g.scope (strBytes g.cfg.op)
-    pure { s with topic := t, st := St.init, acts := s.acts ++ ["sub:" ++ hexRaw t] }
-  | [k, vs, cid, hs, val] =>
+  | [k, vs] =>
+    if k == "S" || k == "T" then do
+      let vals ← parseVarVals vs
+      let cfg ← if k == "S" then some g.cfg else g.otherCfg
+      let t := renderTopic g.toks vals g.scope (strBytes cfg.op)
+      pure { s with subs := s.subs ++ [⟨t, cfg, St.init⟩], acts := s.acts ++ ["sub:" ++ hexRaw t] }
+    else if k == "M" then do
+      let b ← unhex vs
+      let t ← g7TopicOf s 0
+      pure (g7Publish g s ⟨t, ⟨b, .garbage⟩⟩)
+    else if k == "U" then do
+      let i ← vs.toNat?
+      g7Unsub s i
+    else none
+  | ["M", h, ks] => do
+    let b ← unhex h
+    let i ← ks.toNat?
+    let t ← g7TopicOf s i
+    pure (g7Publish g s ⟨t, ⟨b, .garbage⟩⟩)
+  | ["U"] => g7Unsub s 0
+  | k :: vs :: cid :: hs :: val :: rest =>
     if k == "P" || k == "Q" then do
       let vals ← parseVarVals vs
       let c ← unhex cid
@@ -200,18 +288,16 @@ def g7Act (g : G7) (s : G7State) (a : String) : Option G7State :=
       let c ← unhex cid
       let user ← parsePairs hs
       let v ← parseThriftVal val
+      let i ← match rest with
+        | [] => some 0
+        | [ks] => ks.toNat?
+        | _ => none
+      let t ← g7TopicOf s i
       let hdrs := genHdrs c user [] []
       match encV g.cfg.d g.cfg.fuel g.cfg.ty v with
-      | .ok es => pure (g7Publish g s ⟨s.topic, ⟨be32 0 ++ marshal hdrs, .msg (String.ofList (name.map fun b => Char.ofNat b.toNat)) es⟩⟩)
+      | .ok es => pure (g7Publish g s ⟨t, ⟨be32 0 ++ marshal hdrs, .msg (String.ofList (name.map fun b => Char.ofNat b.toNat)) es⟩⟩)
       | _ => none
     else none
-  | ["M", h] => do
-    let b ← unhex h
-    pure (g7Publish g s ⟨s.topic, ⟨b, .garbage⟩⟩)
-  | ["U"] =>
-    let s1 := (step g.cfg s.topic s.st .unsubscribe).getD s.st
-    let s2 := (step g.cfg s.topic s1 .abandon).getD s1
-    some { s with st := s2, acts := s.acts ++ ["unsub"] }
   | _ => none
 
 def stepPubSub (op : String) (args : List String) : Option String :=
@@ -221,9 +307,15 @@ def stepPubSub (op : String) (args : List String) : Option String :=
     let (s0, u) := rtRun ops
     let s := drain rtCfg rtTopic (s0.queue.length + 1) s0
     let wn ← w.toNat?
-    -- one worker: the invocation order; n workers: the canonical (sorted) form of the multiset
-    let tags := if wn ≤ 1 then s.w.log.map tagOf else sortNats (s.w.log.map tagOf)
-    pure s!"unsub={if u then "ok" else "none"} delivered={tagsStr tags} cb={s.w.cbs} err={s.w.errs}"
+    pure (subLineStr wn s u)
+  | "pm", [_, w, _, subsS, opsS] => do
+    let ops ← parseRtOps opsS
+    let topics ← (subsS.splitOn ",").mapM (·.toNat?)
+    let wn ← w.toNat?
+    let fin := (rtRunMulti topics ops).zip topics
+    let parts := fin.map fun ((s0, u), t) =>
+      subLineStr wn (drain rtCfg (rtTopicOf t) (s0.queue.length + 1) s0) u
+    pure s!"k={parts.length} {" / ".intercalate parts}"
   | "psr", [_, w, _, obsS, opsS] => do
     let ops ← parseRtOps opsS
     let obs ← parseTags obsS
@@ -239,12 +331,10 @@ def stepPubSub (op : String) (args : List String) : Option String :=
     let d ← parseThriftDefs ds
     let toks ← parseToks toksS
     let g : G7 := ⟨⟨d, 64, opN, .struct sk⟩, if osk == "-" then none else some ⟨d, 64, oopN, .struct osk⟩, toks, strBytes scope⟩
-    let init : G7State := ⟨[], St.init, []⟩
+    let init : G7State := ⟨[], [], []⟩
     let fin ← (actsS.splitOn "/").foldlM (fun s a => g7Act g s a) init
-    let calls := fin.st.w.log.map fun dl =>
-      dumpV d 64 (.struct sk) dl.payload ++ "@" ++ pairsOf (dl.hdrs.filter fun kv => kv.1 ≠ opIdHeader)
-    let callsS := if calls.isEmpty then "-" else "/".intercalate calls
-    pure s!"n={calls.length} acts={",".intercalate fin.acts} calls={callsS}"
+    let callsS := if fin.calls.isEmpty then "-" else "/".intercalate fin.calls
+    pure s!"n={fin.calls.length} acts={",".intercalate fin.acts} calls={callsS}"
   | _, _ => none
 
 end Driver
